@@ -315,7 +315,10 @@ var (
 	}
 )
 
-func genStatValue(t *rapid.T, center float64) float64 {
+func genStatValue(t *rapid.T, center float64, constant bool) float64 {
+	if constant {
+		return center
+	}
 	if vcase.OneIn(t, 30, "zero") {
 		return 0
 	}
@@ -328,7 +331,7 @@ func genStatValue(t *rapid.T, center float64) float64 {
 	}
 }
 
-func genStatFile(t *rapid.T, scale float64) statFile {
+func genStatFile(t *rapid.T, scale float64, constant bool) statFile {
 	var sb strings.Builder
 	var f statFile
 	if vcase.OneIn(t, 4, "label") {
@@ -388,7 +391,7 @@ func genStatFile(t *rapid.T, scale float64) statFile {
 						continue
 					}
 					c := scale * mult * float64(ui*7+3) * 10
-					fmt.Fprintf(&sb, " %v %s", genStatValue(t, c), u)
+					fmt.Fprintf(&sb, " %v %s", genStatValue(t, c, constant), u)
 				}
 				sb.WriteString("\n")
 			}
@@ -430,8 +433,15 @@ func genStatExpr(t *rapid.T, pool []string, label string, maxFields int) refproj
 func genStatCase(t *rapid.T) statCase {
 	var c statCase
 	nfiles := rapid.IntRange(1, 4).Draw(t, "nfiles")
+	// constant mode: every measurement of a benchmark/unit is the same number in every file
+	// (the comparison then cannot run a test: "all samples are equal")
+	constant := vcase.OneIn(t, 8, "constant")
 	for i := 0; i < nfiles; i++ {
-		c.Files = append(c.Files, genStatFile(t, 1+float64(i)*0.06))
+		scale := 1 + float64(i)*0.06
+		if constant {
+			scale = 1
+		}
+		c.Files = append(c.Files, genStatFile(t, scale, constant))
 	}
 	for i := range c.Files {
 		c.Paths = append(c.Paths, i)
@@ -449,7 +459,7 @@ func genStatCase(t *rapid.T) statCase {
 		c.Table = genStatExpr(t, []string{".config", "goos", "pkg", "goarch", "note"}, "table", 2)
 	}
 	if vcase.OneIn(t, 3, "ignore") {
-		c.Ignore = genStatExpr(t, []string{"goarch", "note", "commit", "/size", "/gomaxprocs", ".file", "pkg"}, "ign", 2)
+		c.Ignore = genStatExpr(t, []string{"goarch", "note", "commit", "/size", "/gomaxprocs", ".file", "pkg", ".fullname", ".config", ".name"}, "ign", 2)
 		for i := range c.Ignore {
 			c.Ignore[i].Order, c.Ignore[i].Fixed = "", nil
 		}
